@@ -6,12 +6,18 @@ import NetqasmVerif.Lemmas.TranspileSem
 namespace NQ.Tr
 open NQ
 
+/-- the registers `get_unused_register` can hand out somewhere in `S` (all in the Q bank) -/
+def ScratchSet (S : List Instr) (r : Reg) : Prop :=
+  ∃ p, p < S.length ∧ getUnused ((S.take (p + 1)).flatMap topRegs) = .ok r
+
 /-- the simulation relation at vanilla position `pc`: same memory (arrays, quantum state, …),
-same non-Q registers, and every Q register the program can read here (inside a window) holds the
-window's value in both machines -/
+same registers except Q registers the pass borrows as scratch somewhere in the program, and every Q
+register the program can read here (inside a window) — borrowed or not — holds the window's value in
+both machines -/
 structure Rel {μ : Type} (cfg : Cfg) (S : List Instr) (pc : Nat) (s u : St μ) : Prop where
   mem : s.mem = u.mem
-  nonQ : ∀ r, r.bank ≠ bankQ → s.regs r = u.regs r
+  /-- all registers agree, except possibly Q registers that the pass borrows somewhere in `S` -/
+  outside : ∀ r, (r.bank ≠ bankQ ∨ ¬ ScratchSet S r) → s.regs r = u.regs r
   known : ∀ r v, K cfg S pc r = some v → s.regs r = some v ∧ u.regs r = some v
 
 theorem Rel.init {μ : Type} (cfg : Cfg) (S : List Instr) (s : St μ) : Rel cfg S 0 s s :=
@@ -39,7 +45,7 @@ theorem regs_agree {μ : Type} {cfg : Cfg} {S : List Instr} {pc : Nat} {s u : St
     obtain ⟨v, hv⟩ := Option.isSome_iff_exists.1 this
     have := hR.known r v hv
     rw [this.1, this.2]
-  · exact hR.nonQ r hb
+  · exact hR.outside r (Or.inl hb)
 
 theorem known_of_qstatic {cfg : Cfg} {S : List Instr} {pc : Nat} {x : Instr}
     (hq : qstaticAt cfg (targets cfg S) (S.take pc).reverse x = true) (hs : setOf cfg x = none)
@@ -256,7 +262,12 @@ theorem sim_step {μ : Type} {M : Sem μ} {cfg : Cfg} {S out : List Instr} {cs :
         have := win_lookup hb _ v' hv'
         rw [List.reverse_reverse] at this
         rw [this]; rfl
-      obtain ⟨u', hrun, hmem, hregs⟩ := C.hE x info _ _ _ s u s' hi hgi hex hknow hall hR.mem
+      have hused : ∀ r ∈ topRegs x, r ∈ ([] : List Reg) ++ (S.take (pc + 1)).flatMap topRegs := by
+        intro r hr
+        rw [take_succ_of_get hx]
+        simp only [List.nil_append, List.flatMap_append, List.mem_append]
+        exact Or.inr (by simpa using hr)
+      obtain ⟨u', hrun, hmem, hregs⟩ := C.hE x info _ _ _ s u s' hi hgi hex hused hknow hall hR.mem
         (fun r hr => hagree r (topRegs_sub_regsOf x r hr)) he
       -- embed the straight run
       obtain ⟨pre, post, h1, h2⟩ := code_at (cfg := cfg) (S := S) C.hpad pc hp'
@@ -278,8 +289,10 @@ theorem sim_step {μ : Type} {M : Sem μ} {cfg : Cfg} {S out : List Instr} {cs :
         have h2' : u'.regs r = u.regs r := by
           apply hregs
           intro s0 hs0 heq
-          exact hb (heq ▸ (getUnused_fresh hs0).2)
-        rw [h1', h2']; exact hR.nonQ r hb
+          rcases hb with hb | hb
+          · exact hb (heq ▸ (getUnused_fresh hs0).2)
+          · exact hb ⟨pc, hp, by simpa [heq] using hs0⟩
+        rw [h1', h2']; exact hR.outside r hb
       · intro r v hk
         rw [K_succ hx, hsn, hwn] at hk
         split at hk
@@ -320,7 +333,7 @@ theorem sim_step {μ : Type} {M : Sem μ} {cfg : Cfg} {S out : List Instr} {cs :
           rw [hr1 r, hru1 r]
           split
           · rfl
-          · exact hR.nonQ r hb
+          · exact hR.outside r hb
         · intro r v hk
           rw [K_succ hx, hs] at hk
           split at hk
@@ -342,7 +355,7 @@ theorem sim_step {μ : Type} {M : Sem μ} {cfg : Cfg} {S out : List Instr} {cs :
         · intro r hb
           by_cases hw : r ∈ writesOf cfg x
           · exact hw1 r hw
-          · rw [C.hL.frame x s s' r he hw, C.hL.frame x u u1 r hu1 hw]; exact hR.nonQ r hb
+          · rw [C.hL.frame x s s' r he hw, C.hL.frame x u u1 r hu1 hw]; exact hR.outside r hb
         · intro r v hk
           rw [K_succ hx, hs] at hk
           split at hk
@@ -370,7 +383,7 @@ theorem sim_step {μ : Type} {M : Sem μ} {cfg : Cfg} {S out : List Instr} {cs :
       rw [C.hL.condLine, ← C.hL.condLoc x s u hR.mem hagree]; exact hcnd
     have hstep := Step.taken (M := M) hnv (lineOf_setLine hl _) hc' (by omega)
     simp only [Int.toNat_natCast] at hstep
-    refine ⟨u, Steps.step hstep (Steps.refl _), ⟨hR.mem, hR.nonQ, ?_⟩⟩
+    refine ⟨u, Steps.step hstep (Steps.refl _), ⟨hR.mem, hR.outside, ?_⟩⟩
     intro r v hk
     rw [K_target (mem_targets hx hl) h0 hle] at hk
     cases hk
@@ -391,7 +404,7 @@ theorem sim_step {μ : Type} {M : Sem μ} {cfg : Cfg} {S out : List Instr} {cs :
     have hpos : tposS cs (pc + 1) = tposS cs pc + 1 := by
       rw [tposS_succ cs pc hp', hch]; simp [slen, serialise, hnd]
     rw [hpos]
-    refine ⟨u, Steps.step hstep (Steps.refl _), ⟨hR.mem, hR.nonQ, ?_⟩⟩
+    refine ⟨u, Steps.step hstep (Steps.refl _), ⟨hR.mem, hR.outside, ?_⟩⟩
     intro r v hk
     rw [K_succ hx, hs] at hk
     split at hk
